@@ -191,6 +191,20 @@ func enveloped(form string) bool {
 
 func genScenario(c *Chooser, o ScenOpts) *Plan {
 	svc := genService(c, "sim")
+	rpc := genRPC(c, o)
+	if rpc == nil {
+		return nil
+	}
+	p := &Plan{Config: ConfigPlan{Services: []ServicePlan{svc}}, RPCs: []RPCPlan{*rpc}, Sched: SchedPlan{Policy: "seq"}, Pool: PoolPlan{Policy: "lifo"}}
+	if o.Segment {
+		p.Sched = genSched(c)
+		p.Pool = genPool(c)
+	}
+	return p
+}
+
+// genRPC draws one fault-free RPC against the sim service (whatever its configuration).
+func genRPC(c *Chooser, o ScenOpts) *RPCPlan {
 	forms := o.Forms
 	if forms == nil {
 		forms = []string{FormGRPC, FormGRPCWeb, FormConnectStream, FormConnectUnary, FormConnectGet}
@@ -317,12 +331,7 @@ func genScenario(c *Chooser, o ScenOpts) *Plan {
 		rp.FlushEvery = Pick(c, 0, 1, 2, 3)
 		cp.RW = Pick(c, "", "", "flusherr", "unwrap")
 	}
-	p := &Plan{Config: ConfigPlan{Services: []ServicePlan{svc}}, RPCs: []RPCPlan{{Client: cp, Backend: bp}}, Sched: SchedPlan{Policy: "seq"}, Pool: PoolPlan{Policy: "lifo"}}
-	if o.Segment {
-		p.Sched = genSched(c)
-		p.Pool = genPool(c)
-	}
-	return p
+	return &RPCPlan{Client: cp, Backend: bp}
 }
 
 func methodStreamFacts(md protoreflect.MethodDescriptor) string {
